@@ -46,9 +46,9 @@ IR_RUNS.update({
             "thorough": [("MC", "c15_edif", 0), ("MC", "c15_vlog", 0), ("MC", "c15_eblif", 0)]},
     "C16": {"quick": [("MC", "c16_edif_arr", 0), ("MC", "c16_eblif_noname", 1), ("MC", "c16_edif", 2), ("MC", "c16_edif3", 2), ("MC", "c16_vlog", 1), ("MC", "c16_eblif", 2)],
             "thorough": [("MC", "c16_edif_arr", 0), ("MC", "c16_eblif_noname", 2), ("MC", "c16_edif", 3), ("MC", "c16_vlog", 2), ("MC", "c16_eblif", 3), ("MC", "c16_edif", 12, 300)]},
-    "C18": {"quick": [("MC", "eblif_read", 3), ("MC", "eblif_rt", 2), ("MC", "eblif_latch", 2), ("MC", "eblif_latch_rt", 3),
+    "C18": {"quick": [("MC", "eblif_read", 3), ("MC", "eblif_rt", 2), ("MC", "eblif_latch", 2), ("MC", "eblif_latch_rt", 3), ("MC", "eblif_names", 2),
                       ("MC", "eblif_read", 10, 14), ("FILES", "eblif_file", 9000), ("FILES", "eblif_rt", 9000)],
-            "thorough": [("MC", "eblif_read", 4), ("MC", "eblif_rt", 3), ("MC", "eblif_latch", 4), ("MC", "eblif_latch_rt", 4),
+            "thorough": [("MC", "eblif_read", 4), ("MC", "eblif_rt", 3), ("MC", "eblif_latch", 4), ("MC", "eblif_latch_rt", 4), ("MC", "eblif_names", 3),
                          ("MC", "eblif_read", 12, 300), ("FILES", "eblif_file", 9000), ("FILES", "eblif_rt", 9000)]},
     "C17": {"quick": [("MC", "edif_names", 0), ("MC", "edif_reexport", 0)], "thorough": [("MC", "edif_names", 0), ("MC", "edif_reexport", 0)]},
     "C05": {"quick": [("MC", "edif_read", 2), ("MC", "edif_read1", 1), ("MC", "edif_read", 10, 8), ("MC", "edif_read_br", 1), ("MC", "edif_read2", 1), ("FILES", "edif_file", 12000)],
@@ -78,8 +78,10 @@ IR_RULE = {
            "projected state including user data outside the modelled keys is compared before and after; "
            "distinct_nontrivial counts distinct (design, format, options) triples",
     "C18": "abstract flat designs = reachable states of a build scope following spydrnet's EBLIF conventions (top model with a "
-           "bus input, primitives LEAF and AND2 with a 2-bit port, up to three instances of type .subckt/.gate with .cname "
-           "and .param, every way of tying pins to scalar and bus-indexed nets, unconnected pins); rendered by the "
+           "bus input, primitives LEAF and AND2 with a 2-bit port, up to three instances of type .subckt/.gate with .cname, "
+           ".attr and .param, a .latch, two .names (a two-input gate with zero, one or two cover lines and a constant driver; "
+           "named after the driven net or by .cname), every way of tying pins to scalar and bus-indexed nets, unconnected "
+           "pins); rendered by the "
            "independent writer conform/eblif_text.py under a seeded sample of the options (comments, line continuations, "
            "statement order, primitives declared or not, unconn actuals, a .conn alias placed before or after its uses), "
            "parsed by the real reader; the parse results are also written by the real writer and read back; "
@@ -88,10 +90,13 @@ IR_RULE = {
            "a 2-bit port / top with a 2-bit port, 2- and 3-bit wires; instances with every way of tying their pins to wire "
            "bits); each is rendered by the independent writer conform/verilog_text.py under a seeded sample of 12 of the 128 "
            "option combinations (module order, ANSI headers, positional maps, forced concatenations, escaped identifiers, "
-           "comments, `celldefine) and parsed by the real reader; distinct_nontrivial counts distinct (design, options) pairs "
-           "inside the domain (single root module)",
-    "C04": "the netlists the real Verilog reader produced for the C06 inputs are written by the real writer and read "
-           "again; distinct_nontrivial counts distinct (design, options) pairs",
+           "comments, `celldefine, grouped declarations, escaped module names, never-declared primitives, part-selects inside "
+           "concatenations) and parsed by the real reader; further scopes add assign statements, declaration styles and "
+           "header-aliased ports whose members are scalar nets (.a({\\j[0] , k})); distinct_nontrivial counts distinct "
+           "(design, options) pairs inside the domain (single root module)",
+    "C04": "the netlists the real Verilog reader produced for the C06 inputs - and for header-aliased ports of every shape "
+           "(bits of a vector net, scalar nets, a whole net, one net twice) - are written by the real writer and read "
+           "again, plain and after uniquify + flatten; distinct_nontrivial counts distinct (design, options) pairs",
     "C17": "two siblings of every naming scope (libraries, cells, ports, nets, instances) receive every ordered pair of "
            "distinct names from an adversarial pool (case variants, -, _, brackets, slashes, backslash, space, $, &, leading "
            "digit, existing _sdn_N_ suffixes, lengths 254/255/256/257/300 with collisions after truncation); the netlist is "
